@@ -9,6 +9,7 @@ import random
 from edgegraph.builder import adjlist, adjmatrix
 from edgegraph.structure import DirectedEdge, Link, UnDirectedEdge, Universe, Vertex
 from edgegraph.structure.universe import UniverseLaws
+from edgegraph.structure.base import BaseObject
 from edgegraph.traversal import breadthfirst, depthfirst, helpers
 
 from egverif import histories, observe, oracles, zoo
@@ -34,7 +35,7 @@ MAP_MUTS = ["setitem", "delitem", "clear", "update", "inner_setitem", "inner_cle
 def floors(ctx):
     q = ctx.tier == "quick"
     f = {"evaluations": 5000 if q else 50000, "mutation_took_effect_on_copy": 1000, "protected_by_immutability": 500,
-         "input_probes": 300, "input_probes_with_unhashable_members": 50, "input_probes_fed_with_accessor_results": 10, "sibling_key_probes": 200, "first_read_after_other_side_change_probes": 200}
+         "input_probes": 300, "input_probes_with_unhashable_members": 50, "input_probes_fed_with_accessor_results": 10, "input_probes_on_the_base_class": 10, "sibling_key_probes": 200, "first_read_after_other_side_change_probes": 200}
     for acc in ("links", "vertices", "u_vertices", "universes", "neighbors", "find_links", "bft", "dft_recursive",
                 "dft_iterative", "ibft", "edge_whitelist"):
         for mode in ("off", "cold", "warm", "off_then_on", "off_cold"):
@@ -435,6 +436,31 @@ def probe_inputs(ctx, rng):
     for n in range(4):
         check("Universe", b_uni(n), lambda: [("vertices", None, ["append", "clear", "reverse", "pop", "setitem", "insert"])],
               lambda u: names(u.vertices))
+
+    # the root of the hierarchy, constructed directly and through a subclass without an __init__ of its own (the call
+    # path is one frame shorter than Vertex's); the caller holds the list through exactly one name
+    class Marker(BaseObject):
+        pass
+
+    def b_base(cls, nu, dup):
+        def build():
+            vs, us, ls = fresh()
+            U = (us + [Universe()])[:nu] + (us[:1] if dup and nu else [])
+            A = {"idx": 7, "color": "red"}
+            o = cls(universes=U, attributes=A)
+            return o, [("universes", U), ("attributes", A)]
+
+        return build
+
+    for cls in (BaseObject, Marker):
+        for nu in range(4):
+            for dup in (False, True):
+                check(cls.__name__, b_base(cls, nu, dup),
+                      lambda: [("universes", None, ["append", "clear", "pop", "insert", "reverse", "setitem"]),
+                               ("attributes", None, ["dset", "dclear"])],
+                      lambda o: (len(o.universes), [type(u).__name__ for u in o.universes], getattr(o, "color", None),
+                                 sorted(k for k in vars(o) if not k.startswith("_"))))
+                ctx.count("input_probes_on_the_base_class")
 
     # ... the same constructors fed with a container the LIBRARY handed out (the provenance of a container is not
     # its type: `Universe(vertices=other.vertices)`, `Vertex(links=v.links, universes=v.universes)`,
